@@ -605,7 +605,9 @@ func checkLengthTables(c *Ctx, prop string) {
 	}
 }
 
-func pcallsAll(fn *ssa.Function, callee *ssa.Function) []ssa.CallInstruction { return callsToFn(fn, callee) }
+func pcallsAll(fn *ssa.Function, callee *ssa.Function) []ssa.CallInstruction {
+	return callsToFn(fn, callee)
+}
 
 // preparedFor: the re-slice `last` (a store of Data()[:high] to decodeFrame, in dec or in a helper called from dec) is
 // guarded by the success of a PrepareRead for exactly `high` bytes (high already expressed in dec's frame).
